@@ -5,3 +5,4 @@ import GwfProps.C04
 import GwfProps.C11
 import GwfProps.C12
 import GwfProps.C13
+import GwfProps.C05
